@@ -69,6 +69,18 @@ func verifC15_Fanout() {
 		}
 		b.topicMgr.subscribe([]string{filter}, []byte{subQoS[i]}, ids[i])
 	}
+	// delivery is independent of which other clients are or were subscribed: another client
+	// subscribes to sibling / deeper filters sharing the prefix and leaves again
+	if verifBool("anotherClientCameAndWent") {
+		b.topicMgr.subscribe([]string{"a/c", "a/b/d"}, []byte{1, 1}, "x")
+		if verifBool("leftInOnePacket") {
+			b.topicMgr.unsubscribe([]string{"a/c", "a/b/d"}, "x")
+		} else {
+			b.topicMgr.unsubscribe([]string{"a/b/d"}, "x")
+			b.topicMgr.unsubscribe([]string{"a/c"}, "x")
+		}
+		verifCover("another-subscriber-left")
+	}
 	q := byte(verifInt("messageQoS", 0, 1))
 	payload := []byte{verifByte("payload0"), verifByte("payload1")}
 	b.sendMsgToClient(nil, "a/b", payload, q)
@@ -232,6 +244,8 @@ func verifC15_ClientPublish() {
 	pub := packets.NewControlPacket(packets.Publish).(*packets.PublishPacket)
 	pub.Qos = byte(verifInt("qos", 0, 1))
 	pub.MessageID = uint16(verifInt("messageID", 0, 65535))
+	pub.Dup = verifBool("dupFlag") // a client retransmission is handled like a first transmission
+	pub.Retain = verifBool("retainFlag")
 	pub.TopicName = "a/b"
 	pub.RemainingLength = int(verifInt("remainingLength", 0, 1000))
 	limiterOK := verifUFBool("publishLimiter", pub.RemainingLength+8)
@@ -253,6 +267,9 @@ func verifC15_ClientPublish() {
 			verifAssert(ok && ack.MessageID == pub.MessageID, "puback-carries-the-same-id")
 		}
 		verifCover("acknowledged")
+		if pub.Dup {
+			verifCover("retransmission")
+		}
 	} else {
 		verifAssert(len(c.writeCh) == 0, "no-puback")
 	}
